@@ -1,6 +1,6 @@
 """C02 -- every emitted IPv4 header is self-consistent: length, fields, checksum."""
 import struct
-import common, diff, gen, progs
+import common, diff, gen, progs, carry
 from diff import Case
 from gen import *
 
@@ -95,7 +95,8 @@ def run(ctx):
         cases.append(c)
     fcs = field_cases(ctx, 120 if ctx.thorough else 40)
     bcs = boundary_cases(ctx)
-    cases += fcs + bcs
+    kcs = carry.ip_id_cases(ctx, 24 if ctx.thorough else 8)
+    cases += fcs + bcs + kcs
     # data files are addressed by absolute path: patch the placeholder once the work dir is known
     wd = common.workdir("c02pre")
     for c in bcs:
@@ -105,7 +106,7 @@ def run(ctx):
     diff.run_both(ctx, "c02", cases)
     queries, owners = [], []
     for c in cases:
-        ctx.count("boundary" if c.name[0] == "b" else "fields" if c.name[0] == "f" else "random")
+        ctx.count("boundary" if c.name[0] == "b" else "fields" if c.name[0] == "f" else "carry-directed" if c.name[0] == "k" else "random")
         if not diff.triage(ctx, c):
             continue
         oki, hi = headers(c.impl.pcap)
